@@ -49,8 +49,8 @@ def cases(tier, seed):
         out.append(dict(t="chunk", n=6 if q else 20, seed=R.randrange(1 << 30)))
     for i in range(4 if q else 50):
         out.append(dict(t="sampling", depth=2 if q else R.choice([2, 3]), seed=R.randrange(1 << 30), fmt=R.choice(["npy", "fits"]), _timeout=900))
-    for i in range(2 if q else 30):
-        out.append(dict(t="chunks_all", depth=R.choice([1, 2]), seed=R.randrange(1 << 30), _timeout=900))
+    for i in range(4 if q else 40):
+        out.append(dict(t="chunks_all", depth=R.choice([1, 2]), seed=R.randrange(1 << 30), map=i, _timeout=900))
     return out
 
 
@@ -441,7 +441,8 @@ def case_chunks_all(spec, workdir):
     from toasty.toast import ToastCoordinateSystem as CS
 
     R = random.Random(spec["seed"])
-    H, W = R.choice([(64, 128), (50, 100), (33, 67), (24, 64), (40, 48), (60, 61)])
+    maps = [(24, 64), (64, 128), (40, 48), (33, 67), (60, 61), (50, 100)]  # 2:1 and clearly non-2:1 aspect ratios alternate
+    H, W = maps[spec.get("map", R.randrange(6)) % len(maps)]
     cw, ch = R.randrange(W // 4, W), R.randrange(H // 4, H)
     idmap = (np.arange(H * W).reshape(H, W) + 1).astype(np.int32)
     fc = FakeChunked(idmap, cw, ch)
